@@ -21,6 +21,10 @@ func sfuScenario(r *hutil.Rng, i int, stream string) (atrun.Scenario, Meta) {
 	}
 	sc := atrun.Scenario{Name: fmt.Sprintf("c03-sfu-%s-%d", strings.ReplaceAll(stream, ":", "-"), i), Setup: append([]string{t.ddl}, t.setup...)}
 	meta := Meta{Stream: stream, Table: t.name, Cols: t.cols, PK: t.pk, AutoInc: t.auto, OnlyCare: true, Extra: map[string]string{"shape": "sfu"}}
+	// lock.retry-times / lock.retry-interval: a global lock conflict is final whatever they say
+	sc.Config.LockRetryTimes = 1 + r.Intn(3)
+	sc.Config.LockRetryIntervalMs = 1
+	meta.Extra["retry_times"] = strconv.Itoa(sc.Config.LockRetryTimes)
 	var steps []atrun.Step
 	conflict := r.Chance(2, 5)
 	if conflict {
@@ -115,8 +119,19 @@ func sfuScenario(r *hutil.Rng, i int, stream string) (atrun.Scenario, Meta) {
 		meta.Extra["locks_pre"] = fmt.Sprintf("%d.%d", len(steps), len(body))
 		body = append(body, atrun.Step{Op: "db_locks"})
 	}
+	spelled := t.name
+	if r.Chance(1, 3) {
+		spelled = caseVariant(r, t.name)
+		if r.Chance(1, 2) {
+			body = append(body, atrun.Step{Op: "meta_refresh"})
+			if explicit {
+				meta.Extra["locks_pre"] = fmt.Sprintf("%d.%d", len(steps), len(body))
+				body = append(body, atrun.Step{Op: "db_locks"})
+			}
+		}
+	}
 	sm.Path = fmt.Sprintf("%d.%d", len(steps), len(body))
-	body = append(body, atrun.Step{Op: "query", Conn: conn, SQL: "SELECT * FROM " + t.name + " WHERE " + where + " FOR UPDATE", Args: b.args})
+	body = append(body, atrun.Step{Op: "query", Conn: conn, SQL: "SELECT * FROM " + spelled + " WHERE " + where + " FOR UPDATE", Args: b.args})
 	if explicit {
 		meta.Extra["locks_post"] = fmt.Sprintf("%d.%d", len(steps), len(body))
 		body = append(body, atrun.Step{Op: "db_locks"})
@@ -240,5 +255,44 @@ func txScenario(r *hutil.Rng, i int) (atrun.Scenario, Meta) {
 	meta.Extra["dump_post"] = fmt.Sprintf("0.%d", len(body))
 	body = append(body, atrun.Step{Op: "dump", Tables: []string{t.name}})
 	sc.Steps = []atrun.Step{{Op: "gtx", Steps: body}}
+	return sc, meta
+}
+
+// sfuBadScenario: locking reads the select-for-update executor cannot describe (joins, comma joins, derived tables, no
+// table at all) inside a global transaction: they must be refused, or the coordinator must be asked before rows come back -
+// a FOR UPDATE text handed to the database un-consulted is what the property forbids.
+func sfuBadScenario(r *hutil.Rng, i int) (atrun.Scenario, Meta) {
+	sc := atrun.Scenario{Name: fmt.Sprintf("c03-sfubad-%d", i), Setup: []string{
+		"CREATE TABLE t_kv (k INT NOT NULL, Val INT NOT NULL DEFAULT 0, PRIMARY KEY (k))", "INSERT INTO t_kv (k,Val) VALUES (1,10),(2,20),(3,30)",
+		"CREATE TABLE t_b (k INT NOT NULL, w INT NOT NULL DEFAULT 0, PRIMARY KEY (k))", "INSERT INTO t_b (k,w) VALUES (1,5),(2,6)"}}
+	meta := Meta{Stream: "malformed", Table: "t_kv", Cols: []ColMeta{{"k", "int", false}, {"Val", "int", false}}, PK: []int{0}, OnlyCare: true,
+		Extra: map[string]string{"shape": "sfubad"}}
+	shapes := []string{
+		"SELECT a.k, a.Val FROM t_kv a JOIN t_b b ON a.k = b.k WHERE a.k <= ? FOR UPDATE",
+		"SELECT a.k FROM t_kv a, t_b b WHERE a.k = b.k AND a.k <= ? FOR UPDATE",
+		"SELECT a.k FROM t_kv a LEFT JOIN t_b b ON a.k = b.k WHERE a.k <= ? FOR UPDATE",
+		"SELECT x.k FROM (SELECT k FROM t_kv WHERE k <= ?) x FOR UPDATE",
+		"SELECT ? FROM DUAL FOR UPDATE",
+		"SELECT ? FOR UPDATE",
+	}
+	var steps []atrun.Step
+	if r.Chance(1, 2) {
+		steps = append(steps, atrun.Step{Op: "tc_seed_lock", Table: "T_KV", PK: strconv.Itoa(1 + r.Intn(2))})
+	}
+	conn := ""
+	var body []atrun.Step
+	if r.Chance(1, 2) {
+		conn = "c1"
+		body = append(body, atrun.Step{Op: "tx_begin", Conn: conn})
+	}
+	sm := StmtMeta{Kind: "sfubad", Expect: "any", Conn: conn, Args: []atrun.Arg{atrun.I(int64(1 + r.Intn(3)))}}
+	sm.Path = fmt.Sprintf("%d.%d", len(steps), len(body))
+	body = append(body, atrun.Step{Op: "query", Conn: conn, SQL: shapes[r.Intn(len(shapes))], Args: sm.Args})
+	if conn != "" {
+		body = append(body, atrun.Step{Op: "tx_rollback", Conn: conn}, atrun.Step{Op: "conn_close", Conn: conn})
+	}
+	meta.Stmts = []StmtMeta{sm}
+	steps = append(steps, atrun.Step{Op: "gtx", Steps: body})
+	sc.Steps = steps
 	return sc, meta
 }
